@@ -146,6 +146,7 @@ func (e *Engine) verifyFunc(key string) (res *FuncResult) {
 	entry.allocBase, entry.allocK = st.allocBase, st.allocK
 	end := x.execBlock(fi.Decl.Body.List, st)
 	if end != nil {
+		x.runDefers(end)
 		var vals []*Value
 		for _, r := range f.results {
 			if r.Name() == "" {
